@@ -183,38 +183,26 @@ impl<'a> Tokenizer<'a> {
     ///
     /// Returned errors:
     fn read_nondecimal_data(&mut self, radix: u8) -> Result<Token<'a>, ErrorCode> {
-        let options = lexical_core::ParseIntegerOptions::new();
-        let (n, len) = match radix {
-            b'H' | b'h' => {
-                const FORMAT: u128 = lexical_core::NumberFormatBuilder::from_radix(16);
-                lexical_core::parse_partial_with_options::<u64, FORMAT>(
-                    self.chars.as_slice(),
-                    &options,
-                )
-            }
-            b'Q' | b'q' => {
-                const FORMAT: u128 = lexical_core::NumberFormatBuilder::from_radix(8);
-                lexical_core::parse_partial_with_options::<u64, FORMAT>(
-                    self.chars.as_slice(),
-                    &options,
-                )
-            }
-            b'B' | b'b' => {
-                const FORMAT: u128 = lexical_core::NumberFormatBuilder::from_radix(2);
-                lexical_core::parse_partial_with_options::<u64, FORMAT>(
-                    self.chars.as_slice(),
-                    &options,
-                )
-            }
+        let radix: u8 = match radix {
+            b'H' | b'h' => 16,
+            b'Q' | b'q' => 8,
+            b'B' | b'b' => 2,
             _ => return Err(ErrorCode::NumericDataError),
+        };
+        // Digits only (no sign), value must fit exactly in 64 bits
+        let digits = self.chars.as_slice();
+        let len = digits
+            .iter()
+            .take_while(|c| util::ascii_to_digit(**c, radix).is_some())
+            .count();
+        let mut n: u64 = 0;
+        for digit in digits.iter().take(len) {
+            let d = util::ascii_to_digit(*digit, radix).ok_or(ErrorCode::NumericDataError)?;
+            n = n
+                .checked_mul(radix as u64)
+                .and_then(|n| n.checked_add(d as u64))
+                .ok_or(ErrorCode::DataOutOfRange)?;
         }
-        .map_err(|e| match e {
-            lexical_core::Error::InvalidDigit(_) => ErrorCode::InvalidCharacterInNumber,
-            lexical_core::Error::Overflow(_) | lexical_core::Error::Underflow(_) => {
-                ErrorCode::DataOutOfRange
-            }
-            _ => ErrorCode::NumericDataError,
-        })?;
         if len > 0 {
             self.chars.nth(len - 1).unwrap();
             let ret = Token::NonDecimalNumericProgramData(n);
